@@ -326,6 +326,12 @@ func init() {
 			}
 			cw.add("jout jsonmerged "+msgsString(ms), impl, "N jsonout far-apart-keys", prop)
 		}
+		// byte arrays of length 0, 1 and 2, top level, nested and twice under one tag
+		for _, bs := range [][]byte{{}, {0}, {255, 1}} {
+			m := rscp.Message{Tag: rscp.WB_EXTERN_DATA, DataType: rscp.ByteArray, Value: bs}
+			run([]rscp.Message{m}, "byte-array-length", false)
+			run([]rscp.Message{{Tag: rscp.BAT_DATA, DataType: rscp.Container, Value: []rscp.Message{m, m}}, m}, "byte-array-length nested", false)
+		}
 		for _, sec := range secEdges {
 			for _, ns := range []int64{0, 5, 999999999} {
 				tm := rscp.Message{Tag: rscp.INFO_UTC_TIME, DataType: rscp.Timestamp, Value: time.Unix(sec, ns).UTC()}
